@@ -96,17 +96,10 @@ def check(ctx):
         for x, s in aggs:
             f = s["rv"]["fields"]
             # the closure receives oldest/latest as captured values computed in the parent body
-            o = Origins(x, 1)
-            st, la = o.atoms(s["rv"]["ops"][f.index("start_height")]), o.atoms(s["rv"]["ops"][f.index("last_height")])
-            names = {a[1] for a in st | la if a[0] == "upvar"}
-            par = [y for y in u.bodies if y is not x]
-            okp = False
-            for y in par:
-                for nm, acc in (("oldest_block", "oldest"), ("latest_block", "latest")):
-                    for l in y.locals_named(nm):
-                        if atom_match(Origins(y, 0).atoms({"k": "copy", "l": l}), f"call:{PG}::{acc}"):
-                            okp = True
-            ctx.add("2.page-bounds-are-filter-bounds", "PROV", names >= {"oldest_block", "latest_block"} and okp,
+            st = ctx.resolved_atoms(u, x, s["rv"]["ops"][f.index("start_height")], 1)
+            la = ctx.resolved_atoms(u, x, s["rv"]["ops"][f.index("last_height")], 1)
+            ctx.add("2.page-bounds-are-filter-bounds", "PROV", atom_match(st, f"call:{PG}::oldest") and not atom_match(st, f"call:{PG}::latest") and
+                    atom_match(la, f"call:{PG}::latest") and not atom_match(la, f"call:{PG}::oldest"),
                     "start/last heights of a page are page.oldest()/page.latest()", sites=[str(s.get("line"))], site_key="pb")
             adv = x.calls_to(f"{PG}::advance_and_resize")
             ctx.expect_sites("2.advance-in-success-closure", adv, exactly=1, what="page.advance_and_resize in the success closure")
